@@ -67,8 +67,17 @@ def configs(tier):
                         for k in range(ncpu):
                             c = dict(base, load=f"file:{k}")
                             nslots = (ncpu - 1 + nb) * L
-                            c["_split"] = min(4, nslots) if nslots >= 3 else 0
-                            out.append(c)
+                            # (a split multiplies the fixed cost of a task: only worth it from 2^5 patterns on)
+                            c["_split"] = 4 if nslots >= 7 else (2 if nslots >= 5 else 0)
+                            W = 8 if ndim < 3 else 5         # a 3-D path costs ~8 s
+                            if nslots > W:
+                                # 2^nslots empty/non-empty patterns: windows of W free slots, the others holding 0 / 1 foreign grids
+                                wins = [(st, fl) for st in range(0, nslots, W) for fl in (0, 1)] if ndim < 3 else \
+                                    [(0, 0), (0, 1), (nslots - W, 0)]
+                                for start, fill in wins:
+                                    out.append(dict(c, ghost_window=[start, W, fill], _split=(4 if W >= 7 else 2)))
+                            else:
+                                out.append(c)
                         if ncpu > 1 or nb > 0:
                             out.append(dict(base, load="all:zero"))
                             out.append(dict(base, load="all:positive"))
@@ -111,6 +120,8 @@ def make_output(m, cfg):
     fcfg = dict(ncpu=cfg["ncpu"], ndim=cfg["ndim"], levelmin=1, levelmax=cfg["levelmax"], nboundary=cfg["nboundary"],
                 nxyz=tuple(cfg["nxyz"]), unit_d=us[0], unit_l=us[1], unit_t=us[2], boxlen=us[3], nout=(cfg["nout"] if cfg["nout"] != -1 else 7),
                 bound_keys=[0] + [8 ** (cfg["levelmax"] + 1) * (i + 1) // cfg["ncpu"] for i in range(cfg["ncpu"])])
+    if cfg.get("ghost_window"):
+        fcfg["ghost_window"] = list(cfg["ghost_window"])
     out = LC.Output(m, fcfg)
     build_tree(out, cfg)
     ndim = cfg["ndim"]
